@@ -231,7 +231,11 @@ func C15(tier string) int {
 		fmt.Fprintln(os.Stderr, err)
 		return 2
 	}
-	defer os.RemoveAll(scratch)
+	if os.Getenv("VERIF_KEEP_SCRATCH") == "" {
+		defer os.RemoveAll(scratch)
+	} else {
+		fmt.Fprintln(os.Stderr, "C15: keeping scratch directory", scratch)
+	}
 	scratchRoot = scratch
 	deadline := time.Now().Add(12 * time.Minute)
 	if thorough {
@@ -295,7 +299,11 @@ func C15(tier string) int {
 	res.Sample(M{"part": "reproduction", "files": len(baseDig)})
 
 	// ---- (2) determinism: every owned map-iteration order policy ----
-	inst := determinism(res, scratch, astool, base, baseDig, thorough, deadline)
+	only := os.Getenv("VERIF_C15_EXT") // development aid: run the extension part for one vocabulary only
+	inst := ""
+	if only == "" {
+		inst = determinism(res, scratch, astool, base, baseDig, thorough, deadline)
+	}
 
 	// ---- (3) extension vocabularies ----
 	vocabs := []ExtVocab{FullVocab(3)}
@@ -307,6 +315,19 @@ func C15(tier string) int {
 		checks = append(checks, "C18")
 	}
 	vocabs = append(vocabs, NameClashVocab())
+	if thorough {
+		vocabs = append(vocabs, TypelessChildVocab())
+	}
+	if only != "" {
+		var sel []ExtVocab
+		for _, v := range append(append([]ExtVocab{FullVocab(1), NameClashVocab(), TypelessChildVocab()}, MinimalVocabs()...), vocabs...) {
+			if v.Label == only && len(sel) == 0 {
+				sel = append(sel, v)
+			}
+		}
+		vocabs = sel
+		res.Exhaustive = false
+	}
 	var mu sync.Mutex
 	extInfo := M{}
 	sem := make(chan struct{}, 4)
@@ -321,6 +342,9 @@ func C15(tier string) int {
 			cs := checks
 			if v.Label == "name-clash" {
 				cs = []string{"C13"}
+			}
+			if v.Label == "typeless-child" {
+				cs = []string{"C12", "C01"}
 			}
 			info, viols := runExtension(scratch, astool, inst, vi, v, cs)
 			mu.Lock()
@@ -354,7 +378,9 @@ func runExtension(scratch, astool, instrumented string, idx int, v ExtVocab, che
 	dir := filepath.Join(scratch, fmt.Sprintf("ext%d", idx))
 	mod := filepath.Join(dir, "mod")
 	os.MkdirAll(mod, 0o755)
-	defer os.RemoveAll(dir)
+	if os.Getenv("VERIF_KEEP_SCRATCH") == "" {
+		defer os.RemoveAll(dir)
+	}
 	spec := filepath.Join(dir, "ext.jsonld")
 	os.WriteFile(spec, v.JSON(), 0o644)
 	rep := M{"check": "C15", "part": "extension", "vocabulary": v.Label, "spec": string(v.JSON())}
@@ -441,11 +467,11 @@ func runExtension(scratch, astool, instrumented string, idx int, v ExtVocab, che
 			if len(keys) > 0 {
 				first = keys[0]
 			}
-			if v.Label == "name-clash" {
+			if v.Label == "name-clash" || v.Label == "typeless-child" {
 				// judged by the exact set of wrong predicate cells
 				sort.Strings(keys)
 				h := sha256.Sum256([]byte(strings.Join(keys, "\n")))
-				viols = append(viols, report.Violation{Key: fmt.Sprintf("extension|name-clash|%s-fails|%d-cells|%s", c, len(keys), hex.EncodeToString(h[:5])),
+				viols = append(viols, report.Violation{Key: fmt.Sprintf("extension|%s|%s-fails|%d-cells|%s", v.Label, c, len(keys), hex.EncodeToString(h[:5])),
 					What:   fmt.Sprintf("extension vocabulary %s: the %s driver reports exactly these %d wrong predicate cells: %v", v.Label, c, len(keys), keys),
 					Replay: rep})
 				continue
